@@ -10,6 +10,8 @@ mod float;
 mod integer;
 mod string;
 mod utils;
+#[cfg(feature = "verif_hooks")]
+mod verif_hook;
 
 use any::AnyNewtype;
 use common::{
@@ -29,6 +31,8 @@ pub fn nutype(
     attrs: proc_macro::TokenStream,
     type_definition: proc_macro::TokenStream,
 ) -> proc_macro::TokenStream {
+    #[cfg(feature = "verif_hooks")]
+    verif_hook::emit(&attrs, &type_definition);
     expand_nutype(attrs.into(), type_definition.into())
         .unwrap_or_else(|e| syn::Error::to_compile_error(&e))
         .into()
